@@ -70,7 +70,8 @@ def stages(tier, rng, only=None):
             c["mulk"] = [(1, 3), (2, 3), (1, 7), (3, 1)][k % 4]
         return cs
     out = [ac.stage("grid3x2", PID, lambda: ac.cases(grids.datasets(3, 2), cfgs, SCHEMES, flags=(0,),
-                                                     all_schemes=True, namings=["ints", "letters", "collide"]), _nt)]
+                                                     all_schemes=True,
+                                                     namings=["ints", "letters", "collide", "intish", "mixedraw"]), _nt)]
     n_rand = 500 if tier == "quick" else 5000
     out.append(ac.stage("random", PID, lambda: ac.cases(_with_perm([ac.random_dataset(rng, 8, 6) for _ in range(n_rand)],
                                                                    rng),
